@@ -41,13 +41,29 @@ struct Cleaner : public Ipc::StoreMapCleaner {
     }
 };
 
+int g_realKey[4] = {0, 1, 2, 3};
 void mkKey(int k, unsigned char *out) { memset(out, 0, 16); out[0] = (unsigned char)k; out[5] = 0x5a; out[15] = (unsigned char)(k * 37); }
 
 std::string gen(Rng &r)
 {
     std::ostringstream o;
     const int nthreads = 2 + (int)r.below(2);
-    o << "slots=" << 3 + r.below(6) << " keys=" << 1 + r.below(3) << " pol=" << r.below(4) << " ss=" << r.next() % 1000000007ULL;
+    const bool structured = r.below(2) == 0;
+    // col=1: the logical keys are mapped to real keys that all hash to ONE anchor position (key collisions are where
+    // "only under the requested key" can fail)
+    o << "slots=" << 3 + r.below(6) << " keys=" << (structured ? 2 + r.below(2) : 1 + r.below(3)) << " col=" << (structured ? 1 : r.below(2)) << " pol=" << r.below(4) << " ss=" << r.next() % 1000000007ULL;
+    if (structured) {
+        // one thread keeps replacing the entry at the shared position with alternating keys, the others keep opening them
+        for (int t = 0; t < nthreads; ++t) {
+            o << " T";
+            const int reps = 2 + (int)r.below(3);
+            for (int i = 0; i < reps; ++i) {
+                if (t == 0) o << 'W' << 1 + (i & 1) << 1 + r.below(2) << (r.below(3) == 0 ? "D1" : "");
+                else o << 'R' << 1 + r.below(2) << (r.below(4) == 0 ? "F2" : "");
+            }
+        }
+        return o.str();
+    }
     // W<k><n>: write key k with n slices (appending after the first slice), A<k><n>: write then abort,
     // R<k>: read key k, D<k>: freeEntryByKey, F<k>: freeEntry(fileNoByKey), P: purgeOne
     for (int t = 0; t < nthreads; ++t) {
@@ -72,7 +88,7 @@ long g_mapCounter = 0;
 
 void run(Ctx &ctx, const std::string &w)
 {
-    int slots = 4, nkeys = 2, pol = 0;
+    int slots = 4, nkeys = 2, pol = 0, collide = 0;
     unsigned long long ss = 0;
     std::vector<std::string> progs;
     {
@@ -81,6 +97,7 @@ void run(Ctx &ctx, const std::string &w)
         while (is >> tok) {
             if (tok.rfind("slots=", 0) == 0) slots = atoi(tok.c_str() + 6);
             else if (tok.rfind("keys=", 0) == 0) nkeys = atoi(tok.c_str() + 5);
+            else if (tok.rfind("col=", 0) == 0) collide = atoi(tok.c_str() + 4);
             else if (tok.rfind("pol=", 0) == 0) pol = atoi(tok.c_str() + 4);
             else if (tok.rfind("ss=", 0) == 0) ss = strtoull(tok.c_str() + 3, nullptr, 10);
             else if (tok[0] == 'T') progs.push_back(tok.substr(1));
@@ -95,6 +112,12 @@ void run(Ctx &ctx, const std::string &w)
     {
         Ipc::StoreMap map(path);
         map.disableHitValidation();
+        // logical key k -> real key number
+        if (collide) {
+            std::map<sfileno, std::vector<int>> byPos;
+            for (int id = 1; id <= 60; ++id) { unsigned char kk[16]; mkKey(id, kk); byPos[map.fileNoByKey(reinterpret_cast<const cache_key *>(kk))].push_back(id); }
+            for (auto &e : byPos) if ((int)e.second.size() >= 3) { for (int i = 0; i < 3; ++i) g_realKey[i + 1] = e.second[i]; break; }
+        } else { g_realKey[1] = 1; g_realKey[2] = 2; g_realKey[3] = 3; }
         std::vector<Tag> tags(slots);
         std::vector<int> freeList;
         for (int i = slots - 1; i >= 0; --i) freeList.push_back(i);
@@ -128,7 +151,7 @@ void run(Ctx &ctx, const std::string &w)
                     if (k < 1 || k > 3) continue;
                     if (k > nkeys) k = 1 + (k % nkeys);
                     unsigned char key[16];
-                    mkKey(k, key);
+                    mkKey(g_realKey[k], key);
                     const auto ckey = reinterpret_cast<const cache_key *>(key);
                     const long call = verif::Tick();
                     if (op == 'W' || op == 'A') {
@@ -244,7 +267,7 @@ void run(Ctx &ctx, const std::string &w)
         long reachable = 0;
         for (int k = 1; k <= nkeys && bad.empty(); ++k) {
             unsigned char key[16];
-            mkKey(k, key);
+            mkKey(g_realKey[k], key);
             const auto ckey = reinterpret_cast<const cache_key *>(key);
             sfileno fn = -1;
             if (const auto *a = map.openForReading(ckey, fn)) {
